@@ -134,6 +134,7 @@ func (c Cache) Imports() []string {
 	for k := range unique {
 		imports = append(imports, fmt.Sprintf("%q", k))
 	}
+	sort.Strings(imports) // the map iteration order is not deterministic
 	return imports
 }
 
